@@ -93,6 +93,7 @@ if [ "$(cat "$OUT/.hxkey" 2>/dev/null || true)" != "$HKEY" ]; then
   # the work meter must not meter the harness itself
   [ "$FLAV" = cost ] && HCFL="-O1 -g"
   LIBS="-lz -llzma -ldl -lpthread -rdynamic"
+  [ "$FLAV" = cost ] && WRAP="$WRAP,--wrap=memcpy,--wrap=memmove,--wrap=memchr,--wrap=memcmp,--wrap=memset"
   COMMON=""
   for c in hx gen ref corpus; do
     [ -f "$HERE/$c.c" ] || continue
